@@ -2,14 +2,14 @@
 from . import common as C, gen_int as G, oracles as O
 
 LEAN_MODULE = "Urandom.Props.C06"
-RULE = ("requests: index(len) for len in {0,1,2,..,2^63+k,usize::MAX}, choose/choose_mut on slices of 0..40 elements; "
+RULE = ("requests: index(len) for len in {0,1,2,..,2^63+k,usize::MAX}, choose/choose_mut on slices of 0..40 elements, single on collections of 0..40 items with exact (slice, Vec, custom), inexact (lower/upper bound, Filter) and missing size hints (the reservoir path with Float01 words at and around the 1/i thresholds); "
         "words at the ends of the acceptance interval of the chosen position; non-trivial = collection non-empty or the None path; distinct = distinct request line")
 ASSUMPTIONS = []
 
 
 def generate(r, tier, build):
     k = 1 if tier == "quick" else 20
-    return G.index_requests(r, 800 * k) + G.choose_requests(r, 1200 * k)
+    return G.index_requests(r, 800 * k) + G.choose_requests(r, 1200 * k) + G.single_requests(r, 1500 * k)
 
 
 def corpus(build):
@@ -22,7 +22,7 @@ def classify(req, model):
 
 def oracle(req, impl, build):
     k = req.split()[0]
-    return {"index": O.index_oracle, "choose": O.choose_oracle}[k](req, impl)
+    return {"index": O.index_oracle, "choose": O.choose_oracle, "single": O.choose_oracle}[k](req, impl)
 
 
 def extra(binary, build, tier, rng):
